@@ -81,13 +81,22 @@ def mutate(d, how):
         d["baseScore"] = -1
 
 
-def check_vector(P, ver, s, rng, n_seq):
+def check_vector(P, ver, s, rng, n_seq, near_miss=False):
+    """near_miss: s is NOT a vector of the grammar (padding, letter case, separators ...); if the constructor
+    accepts it all the same, it is an accepted vector and the property applies to it; if not, nothing is judged."""
     L = lib()
     case0 = {"ver": ver, "vector": s}
+    if near_miss:
+        case0["near_miss"] = True
     ok, twin = obs.call(L.CLS[ver], s)
     if not ok:
+        if near_miss:
+            P.stratum("near-miss-rejected")
+            return
         P.violation("construct", "C18:v%s:exception:%s" % (ver, obs.exc_name(twin)), case0, error=repr(twin))
         return
+    if near_miss:
+        P.stratum("accepted-near-miss-judged")
     acc = accessors(ver, twin)
     names = [n for n, _ in acc]
     fns = dict(acc)
@@ -102,7 +111,7 @@ def check_vector(P, ver, s, rng, n_seq):
         base[n] = r
     # every ordered pair
     P.distinct_n += len(names) ** 2
-    for a in names:
+    for a in (names if not near_miss else names[:1]):
         for b in names:
             P.evaluations += 1
             o = L.CLS[ver](s)
@@ -250,10 +259,36 @@ def replay(R, w):
 
 def check_case(P, case):
     import random
-    check_vector(P, case["ver"], case["vector"], random.Random(0), 5)
+    check_vector(P, case["ver"], case["vector"], random.Random(0), 5, near_miss=bool(case.get("near_miss")))
+
+
+NEAR_OPS = ("pad", "lower", "upper", "lower-all", "upper-all", "space-end", "space-start", "tab-end", "newline-end", "newline-start",
+            "trailing-slash", "leading-slash", "double-slash", "nul-end", "prefix-variant")
 
 
 def shard(P, ver, idx, n, n_seq, seed):
+    """Odd shards run in a freshly started thread: "returns without raising" does not depend on the thread
+    that imported the package."""
+    if idx % 2 == 1:
+        import threading
+        err = []
+
+        def body():
+            try:
+                _shard(P, ver, idx, n, n_seq, seed)
+            except BaseException as e:  # noqa
+                err.append(e)
+        t = threading.Thread(target=body)
+        t.start()
+        t.join()
+        P.stratum("shards-run-in-a-fresh-thread")
+        if err:
+            raise err[0]
+        return
+    _shard(P, ver, idx, n, n_seq, seed)
+
+
+def _shard(P, ver, idx, n, n_seq, seed):
     import random
     rng = random.Random("C18-%s-%s-%s" % (seed, ver, idx))
     pool = V.each_choice(ver) if idx == 0 else []
@@ -262,6 +297,10 @@ def shard(P, ver, idx, n, n_seq, seed):
         m = pool.pop() if pool else V.rand_metrics(rng, ver, p_opt=rng.choice((0.0, 0.5, 0.9)), p_nd=0.3)
         s = V.spell(prefix, m, "shuffle", rng)
         check_vector(P, ver, s, rng, n_seq)
+        if j % 4 == 0:
+            for op, ms in V.field_mutants(ver, prefix, T.parse(ver, s)[1], rng):
+                if op in NEAR_OPS:
+                    check_vector(P, ver, ms, rng, 1, near_miss=True)
         if j % 13 == 0:
             P.sample({"ver": ver, "vector": s, "sequence": "all ordered accessor pairs + %d random sequences" % n_seq})
 
